@@ -318,6 +318,24 @@ let () =
               (match we with WPacket (EInterest (_, i)) when get_face pre0.faces i.i_face = None -> "face that is not (or no longer) in the face table"
                            | WPacket (EData (_, d)) when get_face pre0.faces d.d_face = None -> "face that is not (or no longer) in the face table" | _ -> "non-local face")
         end;
+        if want "C09" && pre_ok then begin
+          (* local exchanges always work: a /localhost Interest from a local face that need not be dropped, is not answered from the
+             cache and not suppressed, and for which a usable next hop exists (for such a name every usable next hop is a local face),
+             must be forwarded to one *)
+          (match we with
+           | WPacket (EInterest (now, i)) when spec_localhost i.i_name ->
+               let k = thr_of_name i.i_name in
+               let s = pre (if k < nt then k else 0) in
+               (match get_face s.faces i.i_face with
+                | Some g when g.f_local ->
+                    if not (c02_forward_ok s now i outs_all) then
+                      Printf.printf "ORACLE C09 %s %d local-exchange-blocked | Interest %s from local face %s has a usable local next hop (%s) and is neither dropped, cached nor suppressed, but was not forwarded; sent [%s]\n"
+                        caseid !evno (string_of_name i.i_name) (dec_of_n i.i_face)
+                        (String.concat "," (List.filter_map (fun h -> if c02_usable s i h then Some (dec_of_n (fst h)) else None) (c02_candidates s i)))
+                        outs_impl_str
+                | _ -> ())
+           | _ -> ())
+        end;
         let oracle1 fmt = if want "C01" then Printf.printf fmt else Printf.ifprintf stdout fmt in
         (* slots pending by the history before this event (used by the dead-nonce oracle below) *)
         let sp_before = Array.copy sp in
